@@ -41,7 +41,7 @@ ITEMS = [
 HARNESS_PROPS = {
     'k1_var_int_len_u32_full_domain': (['C09', 'C01'], 'src/v5/codec/encode.rs', 'var_int_len_u32'),
     'k1_var_int_len_usize_full_domain': (['C09', 'C01'], 'src/v5/codec/encode.rs', 'var_int_len'),
-    'k1_var_int_len_from_size_inverse': (['C09'], 'src/v5/codec/encode.rs', 'var_int_len_from_size'),
+    'k1_var_int_len_from_size_inverse': (['C09', 'C01'], 'src/v5/codec/encode.rs', 'var_int_len_from_size'),
     'k1_reduce_limit_saturates': (['C09'], 'src/v5/codec/encode.rs', 'reduce_limit'),
     'k1_enum_qos': (['C01', 'C02'], 'src/types.rs', 'prim_enum! QoS'),
     'k1_enum_connack_reason_v3': (['C01', 'C02'], 'src/v3/codec/packet.rs', 'prim_enum! ConnectAckReason'),
@@ -174,6 +174,7 @@ def _package(res, names, dropped):
         'run': type('R', (), {'name': 'K1'})(),
         'tail': res.get('tail', ''),
         'rc': res.get('rc'),
+        'any_failure': any(h.get('status') == 'FAILURE' for h in res['harness'].values()),
     }
 
 
